@@ -237,6 +237,17 @@ where
                                 AddressSearchPreference::ExclusiveFunctionEnd,
                             );
 
+                            // The instruction the sequence starts at may have
+                            // been dropped (e.g. a leading `nop`) while the
+                            // rest of the function is still there: start the
+                            // sequence at the first row that still resolves.
+                            if current_sequence_base_address.is_none() && !from_row.end_sequence() {
+                                current_sequence_base_address = (self.convert_address)(
+                                    from_row.address() + from_base_address,
+                                    AddressSearchPreference::ExclusiveFunctionEnd,
+                                );
+                            }
+
                             if current_sequence_base_address.is_some() {
                                 program.begin_sequence(current_sequence_base_address);
                             }
